@@ -55,6 +55,16 @@ def main(tier, replay, t0):
                                                   dict(base, struct=sd.wgsl())))
                 if not camp.module_ok(c.id, x["id"]):
                     lost += 1
+                    import re as _re
+                    for d in probes.unexpected_rejection(camp, c.id, x["id"]):
+                        m = _re.search(r"cannot find type `([^`]+)`", d.get("message") or "")
+                        if m and m.group(1) not in spec.structs:
+                            viol.append(Violation("field-type-undefined", mv,
+                                                  "a field is declared with the type `%s`, which "
+                                                  "neither the module nor the selected crates "
+                                                  "define" % m.group(1),
+                                                  dict(base, rustc=d.get("message"))))
+                            break
                     continue
                 ps = camp.probe_state(c.id, x["id"], "probe_c06")
                 if ps is None:
